@@ -1,8 +1,50 @@
 import BrushVerif.Model.Wire
-/-! Driver for C07 (stub until the property's model exists). -/
+import BrushVerif.Model.ArithParse
+import BrushVerif.Gen.ArithLevels
+/-! Driver for C07: `P <expr>` (parse → S-expression) and `E <expr> <name>=<value>…` (evaluate in an
+environment of scalars; prints value-or-error and the variables afterwards).  Same canonical output as
+`harness/src/bin/c07.rs`. -/
 namespace BrushVerif.Drv.C07
-open BrushVerif.Wire
+open BrushVerif.Wire BrushVerif.Arith
 
-def handle (_toks : List Str) : Str := "unimplemented".toList
+def varUniverse : List Str := ["a", "b", "c", "d", "x", "y", "z", "u", "v", "w", "A", "B"].map String.toList
+
+def P (s : Str) : Option Expr := parse BrushVerif.Gen.arithLevels s
+
+def errName : Err → String
+  | .divZero => "div0" | .negExp => "negexp" | .parse => "parse"
+  | .recursion => "recursion" | .array => "array" | .update => "update"
+
+def showVal : Val → Str
+  | .scalar s => esc s
+  | .arr m => "[".toList ++ joinWith ",".toList (m.map (fun (k, v) => natToStr k ++ ":".toList ++ esc v)) ++ "]".toList
+
+def dumpVars (env : Env) : Str :=
+  let items := varUniverse.filterMap (fun n => (env.get n).map (fun v => n ++ "=".toList ++ showVal v))
+  if items.isEmpty then "-".toList else joinWith " ".toList items
+
+def parseAssign (t : Str) : Option (Str × Val) :=
+  match t.span (· != '=') with
+  | (n, '=' :: v) => some (n, .scalar (unesc v))
+  | _ => none
+
+def handle (toks : List Str) : Str :=
+  match toks with
+  | cmd :: e :: rest =>
+    let expr := unesc e
+    if cmd = "P".toList then
+      match P expr with
+      | some x => "ok ".toList ++ sexpr x
+      | none => "err".toList
+    else if cmd = "E".toList then
+      let env : Env := (rest.filterMap parseAssign).foldl (fun env (nv : Str × Val) => env.set nv.1 nv.2) []
+      match P expr with
+      | none => "e parse | ".toList ++ dumpVars env
+      | some x =>
+        match eval P 0 env x with
+        | (env', .ok v) => "v ".toList ++ showInt v ++ " | ".toList ++ dumpVars env'
+        | (env', .err er) => "e ".toList ++ (errName er).toList ++ " | ".toList ++ dumpVars env'
+    else "bad-request".toList
+  | _ => "bad-request".toList
 
 end BrushVerif.Drv.C07
